@@ -62,6 +62,10 @@ class Tokenizer:
             self._tokens.append(tok)
         return self._tokens[self._index]
 
+    def at_frontier(self) -> bool:
+        """True when the next token has not been produced yet (it will come from the generator)."""
+        return self._index == len(self._tokens)
+
     def _next_raw(self) -> TokenInfo:
         """The next token of the underlying generator (also while a macro argument is being collected)."""
         tok = next(self._tokengen)
